@@ -74,6 +74,15 @@ CHECKS = {
         note=("Trusted: vlib/simk.py smaps/statm renderers, calibrated byte-exactly against the live /proc/self/smaps each run. The roll-up holds exact sums; all mappings of a process print the same set of lines."),
         design="DESIGN.md section 3 C13",
     ),
+    "C14": dict(
+        level="exploration",
+        technique="property-based testing (Hypothesis): generated descriptor tables, fd-close faults at generated access indices and /proc/pid/io contents -> model table; live differential vs lseek/F_GETFL",
+        text=("Generated fd tables of every target kind with offsets to 2^63 and access mode 0-3 x flag subsets, descriptors closing just before a generated OS access of the scan, and io files "
+              "with blank/malformed/unknown lines are scanned by the real code over a simulated procfs; open_files/num_fds/io_counters are compared with the model. A live tier opens real "
+              "descriptors with 36 flag combinations. Search, not proof."),
+        note=("Trusted: vlib/simk.py fd/fdinfo/io files and fault plan; for access mode 3 any mode string is accepted; a descriptor closing mid-scan may or may not be listed."),
+        design="DESIGN.md section 3 C14",
+    ),
     "C19": dict(
         level="exploration",
         technique="property-based testing (Hypothesis): generated /sys and /proc hardware trees -> statement arithmetic on the model tree",
